@@ -28,13 +28,13 @@ class SubLocation(Harness):
     functions = [FT + "Feature.get_sub_location_from_protein_coordinates",
                  "antismash.common.secmet.locations:convert_protein_position_to_dna"]
     bound = ("gene with 1, 2 or 3 exons (symbolic exon boundaries, lengths need not be multiples of three), either strand, and "
-             "origin-spanning two-exon genes; protein range [s, e) symbolic with 0 <= s < e <= len//3; symbolic record length")
+             "origin-spanning two-exon genes and three-exon genes with two exons before the origin; protein range [s, e) symbolic with 0 <= s < e <= len//3; symbolic record length")
     outside = "more than 3 exons; fuzzy (Before/After) ends; exons overlapping by a frameshift base"
     task_paths = 200
 
     def variants(self, tier):
         out = []
-        for shape in ("s", "j2", "j3", "o", "b"):
+        for shape in ("s", "j2", "j3", "o", "b", "o3"):
             for strand in (1, -1):
                 out.append({"shape": shape, "strand": strand})
         return out
